@@ -75,6 +75,31 @@ CHECKS = {
         "Explicit shape contains every common value used.",
         "7 (C05)",
     ),
+    "C06": (
+        "model_checking", "hist",
+        "explicit-state BFS to fixpoint over all reachable index states under the full operation alphabet, real methods vs NumPy dense model in lock-step",
+        "All concrete index states reachable within (rows<=2(3), cols<=2, values {0,1,2} + -1/absent common) are enumerated to a fixpoint (3.6k states, 0.8M transitions quick), "
+        "so every history of ANY length whose intermediate states stay inside the bounds is covered, not histories up to a depth; each transition executes the real method "
+        "on an object rebuilt from the state key and is compared with the NumPy model, so model traces are validated against the implementation on every step.",
+        "State key abstracts dict insertion order (checked in thorough by expanding each state in both orders); set-update operands respect the exclusivity precondition.",
+        "4",
+    ),
+    "C07": (
+        "model_checking", "hist",
+        "explicit-state BFS to fixpoint (same graph as C06); well-formedness invariant evaluated on every reached state",
+        "On every state produced by any transition of the fixpoint graph: validate(True) plus the range, arity, non-emptiness and no-common-entry conditions it does not "
+        "check, and abscissae / sparsity / inferred cube shape against the dense model. A violating transition is reported with its history and not expanded.",
+        "Same bounds and key abstraction as C06.",
+        "4.3",
+    ),
+    "C15": (
+        "model_checking", "hist",
+        "explicit-state BFS to fixpoint (same graph as C06); most-frequent-common invariant after normalising transitions; ==/!= over all (neighbour) pairs of reached states",
+        "After every library-chosen normalisation in the graph the common value must be a most frequent value of the dense model; every reached state must == its "
+        "harness-built twin with != the exact negation; after the search a == b iff (shape, common, dense) coincide over all pairs in small shape buckets and all neighbour pairs in large ones.",
+        "Large shape buckets are compared on neighbour pairs (same dense/different common, one-cell difference, reflexive with opposite insertion order) rather than all pairs.",
+        "4.3",
+    ),
     "C08": (
         "exploration", "enum",
         "bounded-exhaustive enumeration of all operand pairs/lists over small universes vs. set-algebra reference model",
